@@ -47,6 +47,8 @@ def body(chk):
         return v
     # ---- 1+2: long double slices
     scalar = 'long double'
+    import c10
+    c10.install_rtbis_summary(w, scalar)       # sod_1d: the bisection is summarised so that its call site (tolerance argument) is reached
     st0, sols, _ = w.catalogue(scalar)
     apis = c15.api_list(w, scalar)
     skipped = []
@@ -64,6 +66,7 @@ def body(chk):
             args = c15.sym_args(sg)
             rec.narrow = []
             ex.nonsimple = []
+            ex.fp_log = []
             ex.snap_mode = 'lenient'
             w.models.narrow_hook = narrow_hook
             try:
@@ -73,7 +76,10 @@ def body(chk):
                 continue
             finally:
                 w.models.narrow_hook = None
+                fplog, ex.fp_log = ex.fp_log, None
             chk.functions.add(fn_)
+            # (1b) tolerances: a multiple of DBL_EPSILON = 2^-52 inside the long double slice is a double-precision tolerance
+            deps = sorted(set((f_[-60:], str(v_ * 2 ** 52)) for f_, ty_, v_ in fplog if ty_ == 'f80' and f_ and 'Ie' in f_ and v_ > 0 and (v_ * 2 ** 52).denominator == 1 and (v_ * 2 ** 52) <= 64))
             images = [c for c in ex.nonsimple if c[3] == 'double-image' and c[0] and 'Ie' in c[0]]
             tag = '%s<long double>:%s' % (name, cap)
             good = [p for p in paths if p['error'] is None and p['terminal'] is None]
@@ -84,6 +90,9 @@ def body(chk):
             # (1) constants
             chk.paths_clean('%s:constants-are-long-double-roundings-of-simple-rationals' % tag, [tm.TRUE] if images else [], key='precision:%s:%s:constants' % (name, meth), family='constants',
                             sample=dict(obligation=tag, double_image_constants=[(c[0][-40:], float(c[2]), str(c[4])) for c in images[:4]]), replay=rp_)
+            chk.paths_clean('%s:tolerances-scale-with-the-scalar-type' % tag, [tm.TRUE] if deps else [], key='precision:%s:%s:epsilon' % (name, meth), family='constants',
+                            sample=dict(obligation=tag, multiples_of_DBL_EPSILON_in_long_double_code=deps[:4]),
+                            replay=(sod_precision_replay(chk, api) if name == 'sod_1d' else rp_))
             # (2) narrowed intermediates: does the result depend on a delta?
             deltas = [t for t in tm.topo([res]) if t.op == 'sym' and t.p.startswith('delta#')] if isinstance(res, T) else []
             if deltas:
@@ -198,6 +207,38 @@ def definedness(chk, w):
             chk.add(framework.Ob('defined:%s:denominator-%d-nonzero' % (name, n), 'prop', script, 'unsat', dict(obligation='denominator != 0 under admissibility', evaluator=name, denominator=tm.show(d, 4)),
                                  None, 'defined:%s' % name.split(':')[0], (), 30, family='definedness'))
     chk.extra_cov['definedness_queries'] = n
+
+
+def sod_precision_replay(chk, api):
+    """long double Sod density/momentum between fan and contact vs a 50-digit solution of the Riemann problem (Gamma = 1.4)"""
+    def replay(ob, model):
+        import replay as rp
+        mp = rp.mp
+        g = mp.mpf(14) / 10
+        g = mp.mpf(tm.round_to(tm.Fraction(14, 10) if hasattr(tm, 'Fraction') else Fraction(14, 10), 53).numerator) / mp.mpf(tm.round_to(Fraction(14, 10), 53).denominator)   # the library's default is the double 1.4
+        mu2 = (g - 1) / (g + 1)
+        pl, pr, rl, rr = mp.mpf(1), mp.mpf('0.125'), mp.mpf(1), mp.mpf('0.125')
+        cl, cr = mp.sqrt(g * pl / rl), mp.sqrt(g * pr / rr)
+        f = lambda p: -2 * cl * (1 - (p / pl) ** ((g - 1) / (2 * g))) / (cr * (g - 1)) + (p / pr - 1) * mp.sqrt((1 - mu2) / (g * (mu2 + p / pr)))
+        pm = mp.findroot(f, mp.mpf('0.3'))
+        rhoml = (rl * pm / pl) ** (1 / g)
+        vm = 2 * cl / (g - 1) * (1 - (pm / pl) ** ((g - 1) / (2 * g)))
+        rhomr = rr * (pm + mu2 * pr) / (pr + mu2 * pm)
+        wants = [rhoml if api.endswith('_rho') else rhoml * vm, rhomr if api.endswith('_rho') else rhomr * vm]
+        src = ('#include <masa.h>\n#include <cstdio>\nusing namespace MASA;\nint main(){ masa_init<long double>("h","sod_1d");\n'
+               ' printf("\\nR v0 %%.25Lg\\n",(long double)%s<long double>(0.0L,1.0L)); printf("R v1 %%.25Lg\\n",(long double)%s<long double>(1.2L,1.0L)); return 0;}\n') % (api, api)
+        rc, out, err = chk.lib().run(src)
+        res = rp.parse_results(out)
+        if 'v0' not in res or 'v1' not in res:
+            return dict(reproduced=False, path=None, detail='no value')
+        rel = max(abs(res['v0'] - wants[0]) / abs(wants[0]), abs(res['v1'] - wants[1]) / abs(wants[1]))
+        got, want = res['v0'], wants[0]
+        # 64 units of the long double roundoff: the unchanged library is within ~8 at these points
+        if rel > mp.mpf(2) ** -58:
+            path = chk.save_replay(ob, dict(obligation=ob.name, library=str(got), reference=str(want), relative_error=mp.nstr(rel, 5)), src)
+            return dict(reproduced=True, path=path, detail='sod_1d<long double> %s(0,1): relative error %s exceeds 64 long double roundoff units (double-limited bisection tolerance)' % (api, mp.nstr(rel, 4)))
+        return dict(reproduced=False, path=None, detail='long double error %s within 64 roundoff units' % mp.nstr(rel, 4))
+    return replay
 
 
 def precision_replay(chk, name, api, sg, res, args, view):
